@@ -199,7 +199,7 @@ func genOptimizer(repo string) string {
 
 func main() {
 	if len(os.Args) < 3 {
-		fail("usage: go2coq <repo> <out.v>...   (OptimizerGen.v, ParallelizeGen.v)")
+		fail("usage: go2coq <repo> <out.v>...   (OptimizerGen.v, ParallelizeGen.v, SlicerGen.v)")
 	}
 	repo := os.Args[1]
 	for _, out := range os.Args[2:] {
@@ -208,6 +208,8 @@ func main() {
 			writeIfChanged(out, genOptimizer(repo))
 		case "ParallelizeGen.v":
 			writeIfChanged(out, genParallelize(repo))
+		case "SlicerGen.v":
+			writeIfChanged(out, genSlicer(repo))
 		default:
 			fail("no generator for %s", out)
 		}
